@@ -32,7 +32,7 @@ ASSUMPTIONS = [
 CASES = {"quick": 960, "thorough": 40000}
 MIN_CASES = {"quick": 240, "thorough": 10000}
 REQUIRED_COUNTERS = ["pairs_compared", "parent_pristine_checked", "fresh_interpreter_crosschecks", "probe:netlist", "probe:die", "probe:die_refine", "probe:alloc", "probe:stog",
-                     "probe:pb", "probe:legal", "probe:strop", "near_threshold_probes", "history_ops_executed", "history_scale_extreme_low", "history_scale_extreme_high", "history_near_copies_of_the_probe", "history_same_design_loaded_and_mutated", "probe:heule_deep", "long_sessions"]
+                     "probe:pb", "probe:legal", "probe:strop", "near_threshold_probes", "history_ops_executed", "history_scale_extreme_low", "history_scale_extreme_high", "history_near_copies_of_the_probe", "history_same_design_loaded_and_mutated", "probe:heule_deep", "long_sessions", "history_with_yaml_1.1_directive"]
 SOFT_DEADLINE = {"quick": 240, "thorough": 3300}
 KINDS = ["netlist", "die", "die_refine", "alloc", "stog", "pb", "strop", "legal"]
 
@@ -79,7 +79,10 @@ def gen_op(rng, kind, near=False):
             d = rng.choice([1e-9, 1e-7, 1e-5, 1e-4, 1e-3]) * s
             return {"k": kind, "doc": {"Modules": {"H": {"hard": True, "rectangles": [[2 * s, 2 * s, 2 * s, 2 * s], [4 * s - d, 2 * s, 2 * s, 1 * s]]},
                                                    "S": {"area": s * s, "center": [s, s]}}, "Nets": [["H", "S"]]}}
-        return {"k": kind, "doc": gn.gen_netlist_doc(rng, max_modules=5, max_nets=4)}
+        op = {"k": kind, "doc": gn.gen_netlist_doc(rng, max_modules=5, max_nets=4)}
+        if rng.random() < 0.5:
+            op["as_text"] = rng.choice(["block", "flow"])
+        return op
     if kind in ("die", "die_refine"):
         d = gd.gen_die(rng, max_n=6)
         slim = {k: d[k] for k in ("fam", "W", "H", "regions", "fixed", "struct")}
@@ -234,6 +237,9 @@ def generate(rng, tier, i):
         for c in probe["cons"]:
             if c["k"] == "pb":
                 hist.insert(rng.randint(0, len(hist)), {"k": "pb", "nv": probe["nv"], "cons": [dict(c, bound=c["bound"] + rng.choice([-1, 0, 1]))]})
+    if kind == "netlist" and probe.get("as_text") and rng.random() < 0.5:
+        # an older document with a '%YAML 1.1' directive was read earlier in the session (plain names: valid under both dialects)
+        hist.insert(rng.randint(0, len(hist)), {"k": "netlist", "doc": YAML11_DOC, "as_text": "block", "directive": "1.1"})
     return {"cls": ("near:" if near else "") + kind, "probe": probe, "history": hist, "crosscheck": i % 40 == 7}
 
 
@@ -345,8 +351,13 @@ def fresh_interpreter(probe):
     raise RuntimeError("fresh interpreter gave no result: " + p.stderr[-500:])
 
 
+YAML11_DOC = {"Modules": {"A": {"area": 4, "center": [1, 1]}, "B": {"area": 9, "center": [5, 2]}}, "Nets": [["A", "B", 3]]}
+
+
 def check(case, ctx):
     probe, history = case["probe"], case["history"]
+    if any(h.get("directive") for h in history):
+        ctx.count("history_with_yaml_1.1_directive")
     ctx.count("parent_pristine_checked")
     pp = pristine_problems()
     if pp:
